@@ -87,7 +87,7 @@ def build_runtime(gendir, objdir, cflags, cc="gcc", defines=()):
     return compile_many(cc, runtime_sources(gendir), objdir, flags)
 
 
-HARNESS_C = ["alloc_seam.c", "abort_seam.c"]
+HARNESS_C = ["alloc_seam.c", "abort_seam.c", "random_seam.c"]
 HARNESS_CC = ["core.cc", "walker.cc", "ber.cc", "damage.cc", "transport.cc", "simrun.cc", "c05.cc", "c07.cc", "c14.cc", "c04.cc", "c15.cc"]
 
 
